@@ -164,6 +164,14 @@ def _eval_molecule(ident, m, specs, n_rand, use_rdkit=True):
     return s0, ncases, keys, bad, nrd
 
 
+def _family(m, bad):
+    """root-cause family of a failing round trip (independent predicates of oracles/o01_families.py) or None"""
+    if not bad:
+        return None
+    from oracles.o01_families import c02_family
+    return c02_family(m, [b[2] for b in bad])
+
+
 def _atlas_worker(job):
     import random
     from bounded import domains as D, d01_molgen as G
@@ -173,9 +181,10 @@ def _atlas_worker(job):
         random.seed(f'{env.SEED}:{tag}:{rec["id"]}')  # the library's random writer draws from the global generator
         m, _ = G.build_rec(rec)
         D.norm(m)
-        s0, ncases, keys, bad, nrd = _eval_molecule(rec['id'], m, specs, n_rand, use_rdkit=len(rec['atoms']) <= 60)
+        anchor = rec['id'].startswith('anchor:')  # fixed witnesses of the recorded defect families: enough draws to fire in every run
+        s0, ncases, keys, bad, nrd = _eval_molecule(rec['id'], m, specs, 60 if anchor else n_rand, use_rdkit=len(rec['atoms']) <= 60)
         nst = sum(a.stereo is not None for _, a in m.atoms()) + sum(b.stereo is not None for *_, b in m.bonds())
-        out.append((rec['id'], s0, ncases, keys, bad, nrd, nst))
+        out.append((rec['id'], s0, ncases, keys, bad, nrd, nst, _family(m, bad)))
     return out
 
 
@@ -223,6 +232,7 @@ def _corpus_worker(job):
         r = D.rnd(f'{tag}:{text}')
         m = D.parse(text)
         s0, ncases, keys, bad, nrd = _eval_molecule(text, m, specs, n_rand)
+        fams = {(): _family(m, bad)}
         fam = []
         inj_bad = []
         rec = G.rec_of(m, text)
@@ -240,7 +250,8 @@ def _corpus_worker(job):
                     ncases += nc
                     nrd += nr2
                     keys |= ks
-                    bad += [(sp, tx, f'[stereoisomer with elements {sorted(sub)} of the input inverted] {d}', sorted(sub)) for sp, tx, d, _ in b2]
+                    bad += [(sp, tx, d, sorted(sub)) for sp, tx, d, _ in b2]
+                    fams[tuple(sorted(sub))] = _family(fm, b2)
                 members.append((sub, fs, fm, _flip_rdkit(text, rec, set(sub))))
             for (sa, fa, ma, ra), (sb, fb, mb, rb) in itertools.combinations(members, 2):
                 ncases += 1
@@ -253,7 +264,7 @@ def _corpus_worker(job):
                 elif ra is not None and rb is not None and ra != rb:
                     inj_bad.append((sorted(sa), sorted(sb), fa, f'RDKit canonical isomeric SMILES differ: {ra!r} vs {rb!r}'))
             fam = [(fs, sorted(sub)) for sub, fs, _, _ in members]
-        out.append((text, s0, ncases, keys, bad, nrd, k, fam, inj_bad))
+        out.append((text, s0, ncases, keys, bad, nrd, k, fam, inj_bad, fams))
     return out
 
 
@@ -310,15 +321,21 @@ def bounded(run):
     for s in G.SPECIAL_SMILES:
         recs.append(G.rec_of(D.parse(s), f'special:{s}'))
     recs += G.expander_records(36, 2 if quick else 4) + (G.expander_records(60, 2, tag='expander60') if not quick else [])
+    from oracles.o01_families import ANCHORS
+    anchors = [G.rec_of(D.parse(s), f'anchor:{s}') for fam in ANCHORS.values() for s in fam]
+    run.bound(f'anchors: {len(anchors)} fixed witnesses of the recorded defect families (oracles/o01_families.py), identical in every tier / seed, '
+              f'all 32 specs x 60 random orders for specs with r')
+    recs = anchors + recs
     by_id = {rec['id']: rec for rec in recs}
     run.bound(f'decorated graph atlas <= {max_nodes} nodes ({trials} seeded decorations, 2x for trees; charges to +-3, isotopes, radicals, '
               f'spectator components, every 2^k labelling k <= 4 of perceived stereo elements) + hand-written + 4-regular 36/60-atom carbon '
               f'graphs (two-digit closures): {len(recs)} molecules x all {len(ALL_SPECS)} subsets of {{a,A,m,r,h}} x {n_rand} random orders for '
               f'specs with r')
-    rs = sorted(recs, key=lambda x: -len(x['atoms']))
+    rs = anchors + sorted(recs[len(anchors):], key=lambda x: -len(x['atoms']))
     nchunk = max(env.NPROC * 6, 1)
     jobs = [(rs[i::nchunk], specs_small, n_rand, 'b02a') for i in range(nchunk) if rs[i::nchunk]]
     atlas_res = [x for part in pmap(_atlas_worker, jobs) for x in part]
+    atlas_res.sort(key=lambda x: (not x[0].startswith('anchor:'),))  # anchors first: they become the recorded witnesses
 
     texts = list(dict.fromkeys(D.corpus_sample(n_corpus, tag='b02-corpus')))
     iso_specs = ['', 'r', 'ah']
@@ -333,7 +350,7 @@ def bounded(run):
              'injectivity_pairs_judged': 0, 'injectivity_undecided': 0, 'stereo_elements_in_domain': 0}
     by_string = {}
     k = 0
-    for ident, s0, ncases, keys, bad, nrd, nst in atlas_res:
+    for ident, s0, ncases, keys, bad, nrd, nst, fam_key in atlas_res:
         k += 1
         notes['molecules'] += 1
         notes['stereo_molecules'] += bool(nst)
@@ -347,11 +364,12 @@ def bounded(run):
         by_string.setdefault(s0, []).append(ident)
         if bad:
             spec, text, d, _sub = bad[0]
-            run.violation(f'roundtrip:{_h(ident)}:{ident}', f'C02 write->read, spec {spec!r}: {d} [atlas input {ident}, text {text!r}]' +
+            run.violation(f'c02:{fam_key}' if fam_key else f'roundtrip:{_h(ident)}:{ident}',
+                          (f'[family {fam_key}] ' if fam_key else '') + f'C02 write->read, spec {spec!r}: {d} [atlas input {ident}, text {text!r}]' +
                           (f' (also specs {[b[0] for b in bad[1:]]})' if len(bad) > 1 else ''),
                           witness={'relation': 'roundtrip', 'domain': 'atlas', 'input': ident, 'record': by_id[ident], 'spec': spec,
                                    'text': text}, native={'canonical': s0, 'differences': {b[0]: [b[1], b[2]] for b in bad}})
-    for text, s0, ncases, keys, bad, nrd, nst, fam, inj_bad in corpus_res:
+    for text, s0, ncases, keys, bad, nrd, nst, fam, inj_bad, fams in corpus_res:
         k += 1
         notes['molecules'] += 1 + max(0, len(fam) - 1)
         notes['stereo_molecules'] += len(fam)
@@ -373,8 +391,10 @@ def bounded(run):
                 continue
             done.add(fl)
             same = [b for b in bad if (tuple(b[3]) if b[3] else ()) == fl]
-            run.violation(f'roundtrip:{_h(text + str(fl))}:{text}' + (f'/flip{list(fl)}' if fl else ''),
-                          f'C02 write->read, spec {spec!r}: {d} [corpus input {text}, text {tx!r}]' +
+            fk = fams.get(fl)
+            run.violation(f'c02:{fk}' if fk else f'roundtrip:{_h(text + str(fl))}:{text}' + (f'/flip{list(fl)}' if fl else ''),
+                          (f'[family {fk}] ' if fk else '') + f'C02 write->read, spec {spec!r}: {d} [corpus input {text}' +
+                          (f', stereoisomer with elements {list(fl)} inverted' if fl else '') + f', text {tx!r}]' +
                           (f' (also specs {[b[0] for b in same[1:]]})' if len(same) > 1 else ''),
                           witness={'relation': 'roundtrip', 'domain': 'corpus', 'input': text, 'spec': spec, 'text': tx, 'flip': sub},
                           native={'canonical': s0, 'differences': {b[0]: [b[1], b[2]] for b in same}})
